@@ -1,6 +1,7 @@
 package c01
 
 import (
+	"encoding/hex"
 	"fmt"
 	"math/big"
 	"time"
@@ -12,6 +13,7 @@ import (
 	codectypes "github.com/cosmos/cosmos-sdk/codec/types"
 	cryptocodec "github.com/cosmos/cosmos-sdk/crypto/codec"
 	sdk "github.com/cosmos/cosmos-sdk/types"
+	vestingtypes "github.com/cosmos/cosmos-sdk/x/auth/vesting/types"
 	"github.com/cosmos/cosmos-sdk/x/authz"
 	banktypes "github.com/cosmos/cosmos-sdk/x/bank/types"
 	distrtypes "github.com/cosmos/cosmos-sdk/x/distribution/types"
@@ -24,6 +26,7 @@ import (
 	cpcabi "github.com/EscanBE/evermint/v12/x/cpc/abi"
 	cpctypes "github.com/EscanBE/evermint/v12/x/cpc/types"
 	evmtypes "github.com/EscanBE/evermint/v12/x/evm/types"
+	vauthtypes "github.com/EscanBE/evermint/v12/x/vauth/types"
 
 	"verifharness/vh"
 )
@@ -34,20 +37,21 @@ var vestEnds = []int64{946684800 /*2000*/, 1717200000 /*2024-06*/, 2208988800 /*
 var vestKinds = []string{"delayed", "continuous", "periodic", "permanent"}
 
 type gen struct {
-	w        *vh.World
-	r        *vh.RNG
-	vest     []common.Address // unfunded nonce-0 vesting accounts (wall-clock sensitive when touched)
-	vestInfo map[common.Address]string
-	erc20    common.Address
-	staking  common.Address
+	w              *vh.World
+	r              *vh.RNG
+	vest           []common.Address // unfunded nonce-0 vesting accounts (wall-clock sensitive when touched)
+	vestInfo       map[common.Address]string
+	erc20          common.Address
+	staking        common.Address
 	pendingDestroy []*destroyScenario
-	proposals int
-	newVals  int
-	stats    map[string]int
-	queries  []QuerySpec
-	claimAll []*vh.TxPlan // claims of the dedicated staker from all validators at once
-	deployer *vh.Acct      // whitelisted precompile deployer; holds the second denomination
-	dynErc20 common.Address // ERC-20 precompile deployed MID-history (zero until then)
+	proposals      int
+	newVals        int
+	stats          map[string]int
+	queries        []QuerySpec
+	claimAll       []*vh.TxPlan   // claims of the dedicated staker from all validators at once
+	deployer       *vh.Acct       // whitelisted precompile deployer; holds the second denomination
+	dynErc20       common.Address // ERC-20 precompile deployed MID-history (zero until then)
+	proven         []*vh.Acct     // keys whose ownership gets proven to x/vauth at height 3 (they never transact)
 }
 
 type destroyScenario struct {
@@ -73,7 +77,7 @@ func newGen(r *vh.RNG, seed uint64) *gen {
 	accts = append(accts, vh.GenAccount{Addr: g.deployer.Addr, Coins: vh.NativeCoins(1000).Add(sdk.NewCoin(vh.SecondDenom, sdkmath.NewInt(5_000_000_000)))})
 	g.w = vh.NewWorld(r, vh.WorldOpts{Chain: vh.Config{Seed: seed, KeepBlocks: true, NumVals: 4, MaxGas: 40_000_000, Erc20Native: true, StakingCPC: true,
 		CpcWhitelist: []string{g.deployer.Bech32()},
-		Accounts: accts, SlashWindow: 8, UnbondingTime: 40 * time.Second, Inflation: true,
+		Accounts:     accts, SlashWindow: 8, UnbondingTime: 40 * time.Second, Inflation: true,
 		MutateGenesis: shortGov}, NumEOA: 8, Prog: vh.ProgOpts{MaxLen: 7, Depth: 2}, ExtraPool: g.vest})
 	ctx := g.w.C.QueryCtx()
 	for _, m := range g.w.C.App.CPCKeeper.GetAllCustomPrecompiledContractsMeta(ctx) {
@@ -143,6 +147,36 @@ func (g *gen) block(height int) ([]*vh.TxPlan, *vh.BlockOpt) {
 				add("erc20-cpc-deployed-mid-history", w.PlanEth(g.deployer, &to, nil, 300000, data, "ok", nil))
 			}
 		}
+	}
+	// ownership proofs, then Cosmos transactions with SEVERAL vesting-creation messages for a mix of proven and unproven
+	// targets in random order: they are refused, and what the refusal costs (gas-metered proof lookups) is part of the
+	// transaction result every node must agree on
+	if height == 3 {
+		s := w.EOAs[0]
+		var msgs []sdk.Msg
+		for i := 0; i < 3; i++ {
+			a := vh.NewAcct(r)
+			g.proven = append(g.proven, a)
+			sig, err := crypto.Sign(crypto.Keccak256([]byte(vauthtypes.MessageToSign)), a.Key)
+			if err == nil {
+				msgs = append(msgs, &vauthtypes.MsgSubmitProofExternalOwnedAccount{Submitter: s.Bech32(), Account: a.Bech32(), Signature: "0x" + hex.EncodeToString(sig)})
+			}
+		}
+		add("vauth-proofs", g.cosmosMulti(s, msgs, 900000))
+	} else if height > 4 && height%3 == 0 && len(g.proven) > 0 {
+		s := w.EOAs[1]
+		var msgs []sdk.Msg
+		order := []int{0, 1, 2, 3}
+		vh.Shuffle(r, order)
+		for _, i := range order {
+			to := sdk.AccAddress(vh.NewAcct(r).Addr.Bytes()) // unproven
+			if i < 2 {
+				to = vh.Pick(r, g.proven).Acc()
+			}
+			end := w.C.Time.Unix() + int64(100000+r.Intn(1_000_000))
+			msgs = append(msgs, vestingtypes.NewMsgCreateVestingAccount(s.Acc(), to, sdk.NewCoins(sdk.NewCoin(vh.Denom, sdkmath.NewInt(int64(1000+r.Intn(1000))))), end, r.Bool()))
+		}
+		add("vesting-creations-for-proven-and-unproven-targets", g.cosmosMulti(s, msgs, 900000))
 	}
 	// fire destroy scenarios prepared in the previous block
 	for _, sc := range g.pendingDestroy {
@@ -289,11 +323,37 @@ func (g *gen) block(height int) ([]*vh.TxPlan, *vh.BlockOpt) {
 	return plans, opt
 }
 
-func (g *gen) cosmos(s *vh.Acct, msg sdk.Msg) *vh.TxPlan {
+func (g *gen) cosmosMulti(s *vh.Acct, msgs []sdk.Msg, gas uint64) *vh.TxPlan {
+	if len(msgs) == 0 {
+		return nil
+	}
 	seq := g.w.NextNonce(s.Addr)
-	txb, err := g.w.C.CosmosTxBuilder(s, []sdk.Msg{msg}, &vh.CosmosOpts{Seq: &seq, Gas: 600000})
+	txb, err := g.w.C.CosmosTxBuilder(s, msgs, &vh.CosmosOpts{Seq: &seq, Gas: gas})
 	if err != nil {
 		return nil
+	}
+	g.w.BumpPending(s.Addr)
+	return &vh.TxPlan{Kind: "cosmos", Class: "ok", Sender: s, Bytes: g.w.C.Encode(txb)}
+}
+
+func (g *gen) cosmos(s *vh.Acct, msg sdk.Msg) *vh.TxPlan {
+	seq := g.w.NextNonce(s.Addr)
+	opts := &vh.CosmosOpts{Seq: &seq, Gas: 600000}
+	switch msg.(type) {
+	case *stakingtypes.MsgDelegate, *stakingtypes.MsgUndelegate, *stakingtypes.MsgBeginRedelegate, *distrtypes.MsgWithdrawDelegatorReward:
+		// what a web3 wallet sends: the signature is over the EIP-712 rendering of the sign document
+		opts.SignKind = vh.Pick(g.r, []string{"", "amino", "eip712-direct", "eip712-amino"})
+	}
+	txb, err := g.w.C.CosmosTxBuilder(s, []sdk.Msg{msg}, opts)
+	if err != nil && opts.SignKind != "" {
+		opts.SignKind = ""
+		txb, err = g.w.C.CosmosTxBuilder(s, []sdk.Msg{msg}, opts)
+	}
+	if err != nil {
+		return nil
+	}
+	if opts.SignKind != "" {
+		g.stats["cosmos-signed-"+opts.SignKind]++
 	}
 	g.w.BumpPending(s.Addr)
 	return &vh.TxPlan{Kind: "cosmos", Class: "ok", Sender: s, Bytes: g.w.C.Encode(txb)}
